@@ -60,6 +60,70 @@ Fixpoint s_tlv (fuel : nat) (l : bytes) : bool :=
   end.
 Definition s_wf (dg : bytes) : bool := s_tlv (S (length (s_attrs dg))) (s_attrs dg).
 
+(* ---------- reference semantics of the listener on plain byte lists ----------
+   What the listener does with one datagram, written without buffers, slices or offsets; the
+   refinement theorem (Props/C15.v) says the Model of the code computes exactly this. *)
+
+(* attributes as the code's parser accepts them: (type, length >= 2, value) repeated; a single
+   trailing byte is ignored (parseAttributes stops when fewer than 2 bytes remain) *)
+Fixpoint parse_list (fuel : nat) (l : bytes) : pres :=
+  match fuel with
+  | O => PPanic
+  | S f =>
+      match l with
+      | t :: al :: rest =>
+          let alen := N.to_nat al in
+          if Nat.ltb alen 2%nat || Nat.ltb (length l) alen then PErr
+          else match parse_list f (skipn (alen - 2)%nat rest) with
+               | POk r => POk ((t, firstn (alen - 2)%nat rest) :: r)
+               | e => e
+               end
+      | _ => POk []
+      end
+  end.
+Definition attrs_parse (l : bytes) : pres := parse_list (S (length l)) l.
+
+Definition obs_of (o : outcome) : out :=
+  match o with
+  | Drop => OObs [] []
+  | Panic => OPanic
+  | Handle c called req resp => OObs (if called then [(c, req)] else []) [resp]
+  end.
+
+Section Reference.
+  Variable secret : bytes.
+  Variable coa_set dm_set : bool.
+  Variable handler : N -> request -> hresp.
+  Variable H : bytes -> bytes.
+
+  Definition req_verifies (dg : bytes) : bool :=
+    bytes_eqb (s_auth dg) (digest16 (H (s_reqkey secret dg))).
+
+  Definition respond (code ident : N) (reqauth : bytes) (r : hresp) : bytes :=
+    let attrs := resp_attrs r in
+    let hdr := resp_hdr code ident attrs in
+    hdr ++ digest16 (H (hdr ++ reqauth ++ attrs ++ secret)) ++ attrs.
+
+  Definition ref_dispatch (dg : bytes) (attrs : list attr) : outcome :=
+    if s_code dg =? 43 then
+      let req := parse_coa attrs in
+      let r := if coa_set then handler 43 req else coa_default in
+      Handle 43 coa_set req (respond (if h_ok r then 44 else 45) (nth 1%nat dg 0) (s_auth dg) r)
+    else if s_code dg =? 40 then
+      let req := parse_dm attrs in
+      let r := if dm_set then handler 40 req else dm_default in
+      Handle 40 dm_set req (respond (if h_ok r then 41 else 42) (nth 1%nat dg 0) (s_auth dg) r)
+    else Drop.
+
+  Definition coa_reference (dg : bytes) : outcome :=
+    if negb (s_complete dg) then Drop
+    else if negb (req_verifies dg) then Drop
+    else match attrs_parse (s_attrs dg) with
+         | POk attrs => ref_dispatch dg attrs
+         | _ => Drop
+         end.
+End Reference.
+
 Definition s_respkey (secret dg r : bytes) : bytes := firstn 4%nat r ++ s_auth dg ++ skipn 20%nat r ++ secret.
 
 Section Accept.
